@@ -17,7 +17,7 @@ META = dict(technique='Coq proof (call-log invariant for every algorithm program
             level_note='Trusted: Coq kernel+VM; harness (generators, instrumentation of /repo from outside, printers, oracles). User cost/constraints/penalty, DE trial vectors, Nelder-Mead candidate points, argsort permutation and post-decoration populations are oracle inputs (recorded in the correspondence, universally quantified in theorems). Powell: line-search probes and the returned index are oracle inputs. Not in the machine model (oracle only): ensembles, tight/clip range modes. No NaN energies.',
             design_ref="5/C02")
 
-generate = SC.make_generate(**dict(allow_modes=True))
+generate = SC.make_generate(**dict(allow_modes=True, push_out=0.3))
 run_impl = SC.run_impl
 oracle = SC.oracle_c02
 coq_preamble = SC.coq_preamble
